@@ -277,4 +277,111 @@ Proof.
   - destruct H2 as [x' H2]. now apply (Jw_Sf t x').
 Qed.
 
+
+(* ------------------------------------------------------------------ the boring primitives *)
+Lemma JE : forall g, J g -> Sf g.
+Proof. exact J_Sf. Qed.
+
+Lemma p_do_op o : plain_op o = true -> pres J Sf (do_op e o).
+Proof. intros Ho. apply (FJ_do_op Phi e o Sf Ho JE). Qed.
+Lemma p_apply_op o : plain_op o = true -> pres J Sf (apply_op o).
+Proof. intros Ho. apply (FJ_apply_op Phi o Sf Ho JE). Qed.
+Lemma p_fs_mkdir p : pres J Sf (fs_mkdir e p).
+Proof. now apply p_do_op. Qed.
+Lemma p_fs_remove p : pres J Sf (fs_remove e p).
+Proof. now apply p_do_op. Qed.
+Lemma p_fs_symlink l t : pres J Sf (fs_symlink e l t).
+Proof. now apply p_do_op. Qed.
+Lemma p_fs_unmount t : pres J Sf (fs_unmount e t).
+Proof. now apply p_do_op. Qed.
+Lemma p_fs_mount s t ty d : pres J Sf (fs_mount e s t ty d).
+Proof.
+  unfold fs_mount. apply p_bind; [now apply p_do_op|]. intros u.
+  destruct (memb s propagation_sources); [now apply p_do_op|apply (p_ret J Sf)].
+Qed.
+Lemma p_fs_write_text p x : (forall y, Phi p y) -> pres J Sf (fs_write_text e p x).
+Proof. intros Hp. apply (FJ_fs_write_text Phi e p x Sf Hp JE). Qed.
+
+Lemma p_rename_op a b : (forall y, Phi b y) -> pres J Sf (fs_rename e a b).
+Proof.
+  intros Hb. unfold fs_rename, do_op. apply h_mutate; [exact JE|auto|]. unfold apply_op.
+  eapply h_bind; [apply h_get_fs|]. intros f. eapply h_bind; [apply h_get_ks|]. intros k.
+  apply h_on_fres; [intros g [Hg _]; now apply JE|]. intros g f' [Hg ->] Hr.
+  eapply FJ_rename; eauto using Phi_stable.
+Qed.
+
+Lemma p_refresh_mounts ld : pres J Sf (refresh_mounts c ld).
+Proof. unfold refresh_mounts. repeat (pres_step J Sf JE). Qed.
+
+Ltac pleaf := first [apply p_fs_mkdir|apply p_fs_remove|apply p_fs_symlink|apply p_fs_unmount
+                    |apply p_fs_mount|apply p_refresh_mounts].
+Ltac pj := repeat (first [pleaf | pres_step J Sf JE]).
+
+Lemma p_make_symlink_in_dir src tgt : pres J Sf (make_symlink_in_dir e src tgt).
+Proof. unfold make_symlink_in_dir. pj. Qed.
+
+Lemma p_make_export_symlinks l : pres J Sf (make_export_symlinks e c l).
+Proof.
+  unfold make_export_symlinks. destruct (expand_config_exports c l); [|apply (p_fail J Sf JE)].
+  apply (p_bind J Sf); [apply (p_mapM J Sf); intros x _; apply p_make_symlink_in_dir|]. intros u.
+  apply (p_mapM J Sf). intros lt _. pj.
+Qed.
+
+Lemma p_remove_export_links l : pres J Sf (remove_export_links e c l).
+Proof. unfold remove_export_links. apply (p_mapM J Sf). intros lt _. pj. Qed.
+
+Lemma p_makedirs ld name : pres J Sf (makedirs e c ld name).
+Proof. unfold makedirs. pj. apply (p_mapM J Sf). intros d _. pj. Qed.
+
+
+Lemma p_mount_one ld name : pres J Sf (mount_one e c ld name).
+Proof.
+  unfold mount_one. pj.
+  match goal with |- pres _ _ (?F ?xs ?ld0) => generalize ld0; induction xs as [|x r IH]; intros ld1 end.
+  - pj.
+  - pj. apply IH. apply IH.
+Qed.
+
+
+Lemma p_mount_layer ld name : pres J Sf (mount_layer e c ld name).
+Proof.
+  unfold mount_layer. pj.
+  - apply (p_foldM J Sf). intros ld0 x _. apply p_makedirs.
+  - apply (p_foldM J Sf). intros ld0 x _. apply p_mount_one.
+  - apply (p_mapM J Sf). intros x _. apply p_make_export_symlinks.
+Qed.
+
+Lemma p_unmount_layer ld name : pres J Sf (unmount_layer e c ld name).
+Proof.
+  unfold unmount_layer. pj. apply (p_mapM J Sf). intros x _. pj.
+Qed.
+
+Lemma p_unmount_loop names : forall ld busy, pres J Sf
+  ((fix go (names : list bytes) (ld : ldefs) (busy : bool) : M (bool * ldefs) :=
+      match names with
+      | [] => ret (busy, ld)
+      | n :: rest =>
+        r <- unmount_layer e c ld n ;;
+        go rest (snd r) (busy || match fst r with UBusy => true | _ => false end)
+      end) names ld busy).
+Proof.
+  induction names as [|n r IH]; intros ld busy.
+  - apply (p_ret J Sf).
+  - apply (p_bind J Sf); [apply p_unmount_layer|]. intros a. apply IH.
+Qed.
+Lemma p_unmount ld name all : pres J Sf (unmount e c ld name all).
+Proof.
+  unfold unmount. pj; try apply p_unmount_layer. apply p_unmount_loop.
+Qed.
+
+Lemma p_shake ld : pres J Sf (shake e c ld).
+Proof. unfold shake. pj. apply (p_mapM J Sf). intros n _. pj. Qed.
+
+Lemma p_chroot ld name : pres J Sf (chroot_prepare e c ld name).
+Proof.
+  unfold chroot_prepare. apply (p_bind J Sf); [apply (p_guard J Sf JE)|]. intros u.
+  destruct (lm_get (ld_map ld) name) as [l|]; [|apply (p_panic J Sf JE)].
+  destruct (l_state l <? st_mounted)%N; [apply p_mount_layer|apply (p_ret J Sf)].
+Qed.
+
 End Inv.
